@@ -1,6 +1,8 @@
 package rules
 
 import (
+	"go/types"
+	"go/constant"
 	"go/token"
 	"strings"
 
@@ -228,4 +230,79 @@ func (c *Ctx) ruleCodegenFlow(rule string) {
 			c.R.Bad(rule, k, g.Pos(fn.Pos()), "field type selection is not `referenced ID for refs, type ID otherwise`", "")
 		}
 	}
+}
+
+// R-TRUNC (C19: "running it again on the same input produces byte-identical output"): the generator's output file must
+// be replaced, not overwritten in place. Every call that opens or writes a file is an obligation: os.WriteFile and
+// os.Create truncate; os.OpenFile must carry O_TRUNC (or O_APPEND / O_EXCL, which cannot leave a stale tail) in a
+// constant flag argument. A file opened for writing without truncation keeps the tail of a longer previous output.
+func (c *Ctx) ruleTrunc(rule string) {
+	g := c.Gen
+	if g == nil {
+		c.R.Unresolved(rule, "code generator module")
+		return
+	}
+	n := 0
+	for _, fn := range g.SortedFuncs(allFuncs(g)) {
+		cnt := 0
+		for _, b := range fn.Blocks {
+			for _, in := range b.Instrs {
+				call, ok := in.(*ssa.Call)
+				if !ok {
+					continue
+				}
+				name := core.StaticCalleeName(&call.Call)
+				switch name {
+				case "os.WriteFile", "os.Create", "io/ioutil.WriteFile":
+					n++
+					cnt++
+					c.R.Ok(rule, key(rule, g.Key(fn), sprintf("%s #%d", name, cnt)), g.InstrPos(call), "output file written", name+" truncates the file")
+				case "os.OpenFile":
+					n++
+					cnt++
+					k := key(rule, g.Key(fn), sprintf("os.OpenFile #%d", cnt))
+					flags, isConst := core.ConstInt(call.Call.Args[1])
+					// the os.O_* constants of the configuration being analysed (they differ between operating systems)
+					oWRONLY, oRDWR, oAPPEND, oEXCL, oTRUNC := osConst(g, "O_WRONLY"), osConst(g, "O_RDWR"), osConst(g, "O_APPEND"), osConst(g, "O_EXCL"), osConst(g, "O_TRUNC")
+					if oTRUNC == 0 || oWRONLY == 0 {
+						c.R.Unresolved(rule, "os.O_TRUNC / os.O_WRONLY constants")
+						continue
+					}
+					switch {
+					case !isConst:
+						c.R.Bad(rule, k, g.InstrPos(call), "os.OpenFile with non-constant flags", "undecided = fail")
+					case flags&(oWRONLY|oRDWR) == 0:
+						c.R.Ok(rule, k, g.InstrPos(call), "file opened", "opened read-only")
+					case flags&(oTRUNC|oAPPEND|oEXCL) != 0:
+						c.R.Ok(rule, k, g.InstrPos(call), "output file opened", "O_TRUNC / O_APPEND / O_EXCL set")
+					default:
+						c.R.Bad(rule, k, g.InstrPos(call), "output file opened for writing without O_TRUNC",
+							"when the new output is shorter than the file already there, the old tail survives: the result is not valid Go and depends on the directory's history")
+					}
+				}
+			}
+		}
+	}
+	c.R.Note("%s: %d file-writing calls in the generator", rule, n)
+}
+
+func allFuncs(m *core.Module) map[*ssa.Function]bool {
+	out := map[*ssa.Function]bool{}
+	for _, f := range m.Funcs {
+		out[f] = true
+	}
+	return out
+}
+
+func osConst(m *core.Module, name string) int64 {
+	p := m.Prog.ImportedPackage("os")
+	if p == nil || p.Pkg == nil {
+		return 0
+	}
+	cst, ok := p.Pkg.Scope().Lookup(name).(*types.Const)
+	if !ok {
+		return 0
+	}
+	v, _ := constant.Int64Val(cst.Val())
+	return v
 }
